@@ -44,7 +44,52 @@ ITEMS = {
                                                         masks=MASKS)), False, True),
     'mac_opaque': (lambda u: W.p_mac('3'), False, False),
     'locate': (lambda u: W.p_locate(), False, False),
+    # ---- the ID placeholder family: every operation that SETS the placeholder ...
+    'create_named': (lambda u: W.p_create(W.sym_attrs(masks=MASKS, names=['n'])), False, True),
+    'create_key_pair': (lambda u: W.p_create_key_pair(**W.rsa_pair_attrs(
+        pub_masks=(CUM.VERIFY,), priv_masks=(CUM.SIGN,))), False, True),
+    'register_sym': (lambda u: W.p_register(W.pie_symmetric(), [
+        W.attr(AT.CRYPTOGRAPHIC_USAGE_MASK, MASKS), W.attr(AT.NAME, 'n', 0)]), False, True),
+    'derive_key': (lambda u: W.p_derive_key(['4'], attrs=W.sym_attrs(masks=MASKS, names=['n'])),
+                   False, True),
+    # ... and every operation that READS it when the request names no object
+    'get_attribute_list_ph': (lambda u: W.p_get_attribute_list(u), True, False),
+    'activate_ph': (lambda u: W.p_activate(u), True, False),
+    'revoke_ph': (lambda u: W.p_revoke(u), True, False),
+    'delete_attribute_ph': (lambda u: W.p_delete_attribute_1x(u, 'Name', 0), True, False),
+    'encrypt_ph': (lambda u: W.p_encrypt(u), True, False),
+    'decrypt_ph': (lambda u: W.p_decrypt(u), True, False),
+    'mac_ph': (lambda u: W.p_mac(u), True, False),
+    'sign_ph': (lambda u: W.p_sign(u), True, False),
+    'signature_verify_ph': (lambda u: W.p_signature_verify(u), True, False),
+    # KMIP 2.0 forms
+    'set_attribute_ph': (lambda u: W.p_set_attribute(u, AT.NAME, 'set'), True, False),
+    'modify_20_ph': (lambda u: W.p_modify_attribute_20(u, AT.NAME, 'renamed', 'n'), True, False),
+    'delete_20_ph': (lambda u: W.p_delete_attribute_20(u, AT.NAME, 'n'), True, False),
 }
+SETTERS = ['create_named', 'create_key_pair', 'register_sym', 'derive_key']
+READERS_1X = ['get_ph', 'get_attributes_ph', 'get_attribute_list_ph', 'activate_ph', 'revoke_ph',
+              'destroy_ph', 'modify_ph', 'delete_attribute_ph', 'encrypt_ph', 'decrypt_ph', 'mac_ph',
+              'sign_ph', 'signature_verify_ph']
+READERS_20 = ['get_ph', 'get_attributes_ph', 'get_attribute_list_ph', 'activate_ph', 'revoke_ph',
+              'destroy_ph', 'set_attribute_ph', 'modify_20_ph', 'delete_20_ph', 'encrypt_ph', 'mac_ph',
+              'sign_ph']
+# the tag under which each setter reports the identifier that becomes the placeholder
+PLACEHOLDER_TAG = {'create_key_pair': W.TAG.PRIVATE_KEY_UNIQUE_IDENTIFIER.value}
+
+
+def placeholder_family():
+    """(item names, version): setter [, activate] , reader  and  setter, setter, reader."""
+    out = []
+    for version, readers in (((1, 2), READERS_1X), ((2, 0), READERS_20)):
+        for s in SETTERS:
+            for r in readers:
+                out.append(((s, r), version))
+                out.append(((s, 'activate_ph', r), version))
+                for s2 in SETTERS:
+                    if s2 != s:
+                        out.append(((s2, s, r), version))
+    return out
 QUICK_ITEMS = ['create', 'register_secret', 'get_ph', 'destroy_ph', 'modify_ph', 'activate_1', 'revoke_1',
                'destroy_1', 'get_missing', 'get_denied', 'register_conflict', 'register_dup_names',
                'create_bad_alg']
@@ -67,6 +112,9 @@ def store(kind):
                 W.attr(AT.CRYPTOGRAPHIC_USAGE_MASK, MASKS), W.attr(AT.NAME, 'one', 0)]))   # 1
             w.do(VERSION, W.p_create(), user='bob')                                          # 2
             w.do(VERSION, W.p_register(W.pie_opaque()))                                      # 3
+            w.do(VERSION, W.p_register(W.pie_symmetric(value=b'\x55' * 16), [
+                W.attr(AT.CRYPTOGRAPHIC_USAGE_MASK, [CUM.DERIVE_KEY])]))                     # 4
+            w.do(VERSION, W.p_activate('4'))
             if kind == 'active':
                 w.do(VERSION, W.p_activate('1'))
         _STORE_CACHE[kind] = w
@@ -107,11 +155,13 @@ def ids_for(mode, n):
 CREATED_TAGS = [W.TAG.UNIQUE_IDENTIFIER.value]
 
 
-def run_batch(names, hdr):
+def run_batch(names, hdr, version=VERSION, check_failed=True):
     """Returns (violations [(key, what)], outcome signature)."""
     idm, err, order, st = hdr
+    VERSION = version
     n = len(names)
     W.ENTROPY.constant = True
+    W.use_rsa_pool(1)        # batch and twin must generate the same key pair
     base = store(st)
     w = base.clone()
     twin = base.clone()
@@ -177,12 +227,30 @@ def run_batch(names, hdr):
                                 "item %d (%s) reported %s in the batch but %s when sent alone "
                                 "after the same successful items" % (i, names[i], a, b)))
                 if ITEMS[names[i]][2] and rep_item.payload:
-                    u = W.ttlv.find(rep_item.payload, W.TAG.UNIQUE_IDENTIFIER.value)
+                    u = W.ttlv.find(rep_item.payload, PLACEHOLDER_TAG.get(
+                        names[i], W.TAG.UNIQUE_IDENTIFIER.value))
                     if u:
                         placeholder = u[2]
-            elif rep_item is not None and not request_level:
-                # a failed item: must fail the same way alone (does not depend on batch context)
-                pass
+            elif rep_item is not None and not request_level and check_failed:
+                # a failed item must fail the same way when sent alone after the same successes
+                # (with the placeholder spelled out): neither the batch context nor the way the
+                # object is addressed may change the answer
+                uses_ph = ITEMS[names[i]][1]
+                if uses_ph and placeholder is None:
+                    continue        # nothing to address: no single-request equivalent
+                item = ITEMS[names[i]][0](placeholder if uses_ph else None)
+                t2 = twin.clone()
+                try:
+                    W.CLOCK.now = W.T0 + 100
+                    ti = t2.do(VERSION, item).items[0]
+                finally:
+                    t2.close()
+                a = (rep_item.status, rep_item.reason, rep_item.message)
+                b = (ti.status, ti.reason, ti.message)
+                if a != b:
+                    bad.append(("twin|failure-differs|%s" % names[i],
+                                "item %d (%s) reported %s in the batch but %s when sent alone "
+                                "after the same successful items" % (i, names[i], a, b)))
         tafter = twin.raw_key()
         if after != tafter:
             what = _diff(w.dump(), twin.dump())
@@ -221,23 +289,39 @@ def _hk(hdr):
         idm if isinstance(idm, str) else 'missing', err.name if err else '-', order, st)
 
 
+FAMILY_HEADERS = [('all', None, None, 'active'), ('all', BEO.CONTINUE, None, 'active'),
+                  ('none', None, None, 'active')]
+
+
 def _worker(task):
     seqs, tier = task
     part = Part()
     sigs = set()
-    for names in seqs:
-        for hdr in header_variants(len(names), tier):
-            bad, sig = run_batch(names, hdr)
-            part.count('batches')
+    for entry in seqs:
+        if isinstance(entry[0], tuple):
+            names, version = entry
+            headers = [h for h in FAMILY_HEADERS if h[0] == 'all' or len(names) == 1]
+            family = True
+        else:
+            names, version, headers, family = entry, VERSION, header_variants(len(entry), tier), False
+        for hdr in headers:
+            bad, sig = run_batch(names, hdr, version,
+                                 check_failed=family or tier == 'thorough' or len(names) <= 2)
+            part.count('family_batches' if family else 'batches')
             sigs.add(sig)
+            if family:
+                part.count('family_last_ok' if sig[0] and sig[0][-1] == 0 and len(sig[0]) == len(names)
+                           else 'family_last_not_ok')
             for key, what in bad:
                 part.violation("%s|%s" % (key, _hk(hdr)) if key.startswith(
                     ('request-level', 'effect-without', 'results|count')) else key,
-                    what + "  [batch %s, header %s]" % (list(names), _hk(hdr)),
-                    {'items': list(names), 'header': [
+                    what + "  [batch %s, KMIP %d.%d, header %s]" % (
+                        list(names), version[0], version[1], _hk(hdr)),
+                    {'items': list(names), 'version': list(version), 'header': [
                         hdr[0] if isinstance(hdr[0], str) else list(hdr[0]),
                         hdr[1].name if hdr[1] else None, hdr[2], hdr[3]]})
-    part.sample({'items': list(seqs[-1]), 'headers_tried': len(header_variants(len(seqs[-1]), tier))})
+    last = seqs[-1][0] if isinstance(seqs[-1][0], tuple) else seqs[-1]
+    part.sample({'items': list(last)})
     out = part.as_dict()
     out['sigs'] = sorted(sigs, key=repr)
     return out
@@ -252,23 +336,34 @@ def run(tier, seed):
         seqs += list(itertools.product(alphabet, repeat=n))
     if tier == 'thorough':
         seqs += list(itertools.product(QUICK_ITEMS[:10], repeat=4))
+    fam = placeholder_family()
+    seqs += fam
     nshard = 64
     sigs = set()
     for part in pmap(_worker, [(seqs[i::nshard], tier) for i in range(nshard)]):
         sigs.update(repr(s) for s in part.pop('sigs', []))
         rep.merge(part)
-    b = rep.counters.get('batches', 0)
+    b = rep.counters.get('batches', 0) + rep.counters.get('family_batches', 0)
+    if rep.counters.get('family_last_ok', 0) < len(fam) // 3:
+        rep.harness_error("vacuous: the placeholder reached a succeeding reader in only %s of %d "
+                          "family batches" % (rep.counters.get('family_last_ok'), len(fam)))
     if len(sigs) < 12:
         rep.harness_error("vacuous: only %d distinct result-status signatures" % len(sigs))
     return rep.finish(dict(
         states=b, transitions=b, traces_validated_against_impl=b,
         item_alphabet=len(alphabet), max_batch_length=4 if tier == 'thorough' else 3,
-        item_sequences=len(seqs), distinct_status_signatures=len(sigs), exhaustive=True,
+        item_sequences=len(seqs), placeholder_family_sequences=len(fam),
+        placeholder_family_reader_succeeded=rep.counters.get('family_last_ok', 0),
+        distinct_status_signatures=len(sigs), exhaustive=True,
         explanation="every item sequence up to the length bound over the alphabet x header variants "
                     "with <= 1 deviation (<= 2 for batches of length <= 2) from (ids on all items, no "
                     "error option, no order option, store with an Active key); each batch runs on the "
                     "real session+engine and is compared with a twin engine that receives only the "
-                    "reported successes",
+                    "reported successes; failed items are re-sent alone on a copy of the twin and must "
+                    "fail identically. Placeholder family: every operation that sets the ID "
+                    "placeholder (Create, CreateKeyPair, Register, DeriveKey) x every operation that "
+                    "reads it (13 under KMIP 1.2, 12 under 2.0), as setter-reader, "
+                    "setter-Activate-reader and setter-setter-reader batches",
     ), assumptions=[
         "os.urandom is replaced by a length-determined constant so that batch and twin create equal "
         "key material; time is a logical clock",
@@ -280,5 +375,5 @@ def run(tier, seed):
 def replay(doc):
     h = doc['header']
     hdr = (h[0] if isinstance(h[0], str) else tuple(h[0]), BEO[h[1]] if h[1] else None, h[2], h[3])
-    bad, sig = run_batch(tuple(doc['items']), hdr)
+    bad, sig = run_batch(tuple(doc['items']), hdr, tuple(doc.get('version', VERSION)))
     return bool(bad), '\n'.join("%s: %s" % b for b in bad) or 'no violation (%s)' % (sig,)
